@@ -383,7 +383,7 @@ func cmdCheck(args []string) {
 			"baseline_missing":         missing,
 			"arithmetic":               "machine integers are fixed-width bit-vectors with Go wrap-around semantics; only *big.Int values are mathematical integers",
 		},
-		"assumptions": propertyAssumptions(*prop),
+		"assumptions": append(propertyAssumptions(*prop), undischargedClauses(results)...),
 	}
 	os.MkdirAll(*evidenceDir, 0o755)
 	b, _ := json.MarshalIndent(ev, "", " ")
@@ -442,4 +442,40 @@ func writeReplay(prop string, r *FuncResult, o *Obl) string {
 	fmt.Fprintf(&sb, "\n--- solver output ---\n%s\n", trunc(o.Model, 20000))
 	os.WriteFile(path, []byte(sb.String()), 0o644)
 	return path
+}
+
+
+// undischargedClauses: labelled postconditions of functions under contract that are in no
+// baseline, i.e. are assumed at their call sites (modular verification) without having been
+// discharged for the callee's body.  Reported in every evidence file.
+func undischargedClauses(results []*FuncResult) []string {
+	all := map[string]bool{}
+	for p := 1; p <= 20; p++ {
+		for n := range loadBaseline(fmt.Sprintf("C%02d", p)) {
+			all[n] = true
+		}
+	}
+	known := loadKnownFindings()
+	var missing []string
+	seen := map[string]bool{}
+	for _, r := range results {
+		for _, o := range r.Obls {
+			if o.Kind != "ensures" || !o.Labeled || all[o.Name] || seen[o.Name] {
+				continue
+			}
+			seen[o.Name] = true
+			tag := ""
+			for _, p := range o.Props {
+				if kf := matchKnown(known, p, o.Name); kf != nil && !kf.Fixed {
+					tag = " [known finding]"
+				}
+			}
+			missing = append(missing, o.Name+" ("+r.Name+")"+tag)
+		}
+	}
+	sort.Strings(missing)
+	if len(missing) == 0 {
+		return nil
+	}
+	return []string{"postconditions assumed at call sites (modular verification) but not discharged for the callee's body, so not counted as proved anywhere: " + strings.Join(missing, "; ")}
 }
